@@ -1,6 +1,5 @@
 use super::table::{
-    impl_entry_display_trait, impl_table_gen_funcs, impl_table_gen_setter, impl_table_traits,
-    Table, TableEntry,
+    impl_entry_display_trait, impl_table_gen_funcs, impl_table_gen_setter, Table, TableEntry,
 };
 use super::SplitGuestOffset;
 use crate::dev::Qcow2Info;
@@ -260,7 +259,10 @@ impl L2Entry {
                 // (see compressed_range()), which reaches or exceeds the
                 // cluster size for a poorly compressible cluster that starts
                 // near a sector boundary; what has to fit is the sector count
-                assert!(length > 0 && (length - 1 + (offset & 511) as usize) / 512 < 1 << (cluster_bits - 8));
+                assert!(
+                    length > 0
+                        && (length - 1 + (offset & 511) as usize) / 512 < 1 << (cluster_bits - 8)
+                );
 
                 // The first sector is not considered, so we subtract the number of bytes in it
                 // that belong to this compressed cluster from `length`:
@@ -420,7 +422,20 @@ impl From<Qcow2IoBuf<L2Entry>> for L2Table {
     }
 }
 
-impl_table_traits!(L2Table, L2Entry, data);
+impl Table for L2Table {
+    type Entry = L2Entry;
+
+    impl_table_gen_funcs!(data);
+    impl_table_gen_setter!(L2Entry, data);
+
+    fn mapped_data_clusters(&self) -> Vec<u64> {
+        (0..self.entries())
+            .map(|idx| self.get(idx))
+            .filter(|e| !e.is_compressed() && e.cluster_offset() != 0)
+            .map(|e| e.cluster_offset())
+            .collect()
+    }
+}
 
 #[cfg(test)]
 mod tests {
